@@ -225,6 +225,23 @@ pub fn run_all(b: &[u8], o: &DeOpts, reader_ok: bool, heavy: bool) -> Result<(),
 /// (a) they hang on input whose last line starts with `%` and has no line break;
 /// (b) with debug assertions compiled in, the scanner's `skip_break` assertion fires when the
 ///     input ends abruptly (invalid UTF-8 / I/O error) inside a block scalar.
+pub fn reader_hazard_opts(b: &[u8], o: &DeOpts) -> bool {
+    if reader_hazard(b) {
+        return true;
+    }
+    // a reader input cap ends the stream abruptly after `cap` bytes: the same two findings are
+    // reached when the cut falls inside a `%` line or inside a block scalar
+    if let BudgetSel::Explicit(bd) = &o.budget {
+        if let Some(cap) = bd.max_reader_input_bytes {
+            if cap < b.len() {
+                let head = &b[..cap];
+                return percent_tail(head) || percent_tail(&b[..(cap + 1).min(b.len())]) || head.iter().any(|x| matches!(x, b'|' | b'>'));
+            }
+        }
+    }
+    false
+}
+
 pub fn reader_hazard(b: &[u8]) -> bool {
     match std::str::from_utf8(b) {
         Ok(_) => percent_tail(b),
